@@ -22,3 +22,11 @@ for case, terms in cases:
         print('  g%d'%gi, a.op, tm.short(a, 80), ' N has', len(N.P), 'monomials; den', N.d)
     e = tw.root_elems()[0]
     print('zero?', e.P==0, len(e.P), e.d, [len(D) for D in tw.dens], time.time()-t0)
+    if e.P != 0:
+        try:
+            fl = e.P.factor_list()
+            print('FACTORS', fl[0], [(str(f)[:200], m) for f, m in fl[1]])
+        except Exception as ex:
+            print('factor failed', ex)
+    for gi in (5, 42, 4, 6, 7):
+        if gi in tw.atom_of_gen: print('gen', gi, tm.short(tw.atom_of_gen[gi], 1500))
